@@ -109,7 +109,7 @@ def run_with_fault(fn, k):
 ESTIMATE = {}
 
 
-def inject_around(ctx, rng, op, tries=1, cold_key=None):
+def inject_around(ctx, rng, op, tries=1, cold_key=None, record=None):
     """One fault history prefix: aborted runs of op() at random points.
     Counters go to ctx.  Returns the list of sites hit.
 
@@ -117,12 +117,32 @@ def inject_around(ctx, rng, op, tries=1, cold_key=None):
     process (a complete dry run would already fill whatever cache the fault is
     meant to leave half-filled); its fault point is drawn from the number of
     library calls the previous operation of the same key made.  The remaining
-    runs draw theirs from a complete dry run of this operation."""
+    runs draw theirs from a complete dry run of this operation.
+
+    record: a dict (the case) in which the plan that was executed is kept as
+    record["fault_plan"] = [["cold", k], ["dry"], ["warm", k], ...]; when it
+    already holds one (a replay), exactly that plan is executed again."""
     sites = []
+    plan = (record or {}).get("fault_plan")
+    if plan is not None:
+        for step in plan:
+            if step[0] == "dry":
+                count_calls(op)
+                ctx.hit("M-fault.dry_runs")
+            else:
+                fired, site, outcome = run_with_fault(op, step[1])
+                ctx.hit("M-fault.injected" if fired else "M-fault.not_reached")
+                if fired:
+                    sites.append(site)
+        return sites
+    done = []
+    if record is not None:
+        record["fault_plan"] = done
     if cold_key is not None:
         est = ESTIMATE.get(cold_key)
         if est:
             k = rng.randint(1, est)
+            done.append(["cold", k])
             fired, site, outcome = run_with_fault(op, k)
             if fired:
                 ctx.hit("M-fault.injected")
@@ -133,6 +153,7 @@ def inject_around(ctx, rng, op, tries=1, cold_key=None):
                 ctx.hit("M-fault.not_reached")
             tries -= 1
     n = count_calls(op)
+    done.append(["dry"])
     if cold_key is not None and n > 0:
         ESTIMATE[cold_key] = n
     ctx.hit("M-fault.dry_runs")
@@ -141,6 +162,7 @@ def inject_around(ctx, rng, op, tries=1, cold_key=None):
         return sites
     for _ in range(tries):
         k = rng.randint(1, n)
+        done.append(["warm", k])
         fired, site, outcome = run_with_fault(op, k)
         if fired:
             ctx.hit("M-fault.injected")
